@@ -20,6 +20,14 @@ static void scripted_random(void* p, size_t n) {
     if (g_reqs.a.size() < 2000) g_reqs.push(JVal::bytes(b, n));
 }
 
+// a prepared object is reused: before it is prepared for q it is prepared for a point of the other kind (the identity if q is finite, a
+// finite point if q is the identity) -- what the object held before must not matter
+static void prepare_other_kind(G2Prepared& pq, const G2Affine& q) {
+    G2Affine other;
+    if (q.is_zero()) other.copy(G2Affine::generator); else other.copy(G2Affine::zero);
+    pq.prepare(other);
+}
+
 static void run_case(const JVal& in) {
     JVal ev = in;
     ev.set("cfg", VERIF_CFG);
@@ -32,10 +40,11 @@ static void run_case(const JVal& in) {
         std::string variant = in.str("variant", "affine");
         Fq12 r; memset(&r, 0xA5, sizeof r);
         if (variant == "affine") pairing(r, p, q);
-        else if (variant == "prepared") { G2Prepared pq; pq.prepare(q); pairing(r, p, pq); }
+        else if (variant == "prepared") { G2Prepared pq; memset((void*) &pq, 0xA5, sizeof pq); prepare_other_kind(pq, q); pq.prepare(q); pairing(r, p, pq); }
         else if (variant == "c") embedded_pairing_bls12_381_pairing((embedded_pairing_bls12_381_fq12_t*) &r, (embedded_pairing_bls12_381_g1affine_t*) &p, (embedded_pairing_bls12_381_g2affine_t*) &q);
         else if (variant == "c_prepared") {
             static embedded_pairing_bls12_381_g2prepared_t pq;
+            prepare_other_kind(*reinterpret_cast<G2Prepared*>(&pq), q);
             embedded_pairing_bls12_381_g2prepared_prepare(&pq, (embedded_pairing_bls12_381_g2affine_t*) &q);
             embedded_pairing_bls12_381_prepared_pairing((embedded_pairing_bls12_381_fq12_t*) &r, (embedded_pairing_bls12_381_g1affine_t*) &p, &pq);
             out.set("prep_is_zero", (long long) (embedded_pairing_bls12_381_g2prepared_is_zero(&pq) ? 1 : 0));
@@ -56,7 +65,7 @@ static void run_case(const JVal& in) {
                 ap.g1 = (embedded_pairing_bls12_381_g1affine_t*) &ps[i]; ap.g2 = (embedded_pairing_bls12_381_g2affine_t*) &qs[i];
                 aps.push_back(ap);
             } else {
-                preps[i].prepare(qs[i]);
+                prepare_other_kind(preps[i], qs[i]); preps[i].prepare(qs[i]);
                 embedded_pairing_bls12_381_prepared_pair_t pp; memset(&pp, 0xA5, sizeof pp);
                 pp.g1 = (embedded_pairing_bls12_381_g1affine_t*) &ps[i]; pp.g2 = (embedded_pairing_bls12_381_g2prepared_t*) &preps[i];
                 pps.push_back(pp);
